@@ -260,7 +260,22 @@ ADDED7 = {
  'C18': 'Seventh wave: static locks are never destroyed or re-initialised (R18i).',
  'C19': 'Seventh wave: isa_l_encode hands ec_encode_data the block length and the arrays of the request; init expands tables from matrix + k*k (R19i).',
 }
-for _d in (ADDED, ADDED3, ADDED4, ADDED5, ADDED6, ADDED7):
+ADDED8 = {
+ 'C02': 'Eighth wave: header indexes validated in an earlier pass over the same list count for the second pass (R02d); R19f shared.',
+ 'C03': 'Eighth wave: encode and reconstruct hand the serializer the same checksum type, the instance\'s ct as configured (R03c); a supplied destination is followed over feasible paths only (branches on one value are taken consistently); R04a shared.',
+ 'C04': 'Eighth wave: Vandermonde rows restart their power accumulator at 1 and multiply by the row number (R04k); row walks may be split around the diagonal entry (R04e); R13k shared.',
+ 'C05': 'Eighth wave: the XOR encoders call the kernel with whole fragments and the blocksize of the request (R05l); fragment subscripts formed by subtraction subtract k (R05m); the classifier is decided as a value function when it is not one loop over a loop-carried pattern (R05f); R03d shared.',
+ 'C06': 'Eighth wave: fragments_needed_one_data adds the members of the chosen equation on every path that answers 0 (R06n); the Jerasure planners are decided as value functions too (R06m); structural findings of R06d are reconsidered by value before they are reported.',
+ 'C07': 'Eighth wave: every entry of every flat-XOR equation table equals the reference contents recorded from the pinned tree (R07e); R02h shared.',
+ 'C08': 'Eighth wave: encode reports the length get_fragment_size reads from a written fragment (R08f); minimum == aligned(1) decided as a value function of (k, element size) (R08c).',
+ 'C09': 'Eighth wave: a validation loop may have its first iteration peeled off or carry its verdict in a flag that also stops the loop (R09a).',
+ 'C12': 'Eighth wave: verify_stripe_metadata judges all num_fragments entries (R12d); the index / backend tests may sit in is_invalid_fragment_metadata itself (R12b).',
+ 'C13': 'Eighth wave: loops bounded by the caller\'s fragment count compare it as a signed value or after it is known non-negative (R13j); no 32-bit shift by the sum of two count parameters (R13k); the ISA-L word-size guard is decided on a grid of values (R13d); R01b shared.',
+ 'C15': 'Eighth wave: decode / reconstruct / fragments_needed never store into the arrays the caller passes as input (R15h); R14e shared.',
+ 'C16': 'Eighth wave: R15b shared (prepare_fragments_for_decode frees nothing it recorded in realloc_bm).',
+ 'C17': 'Eighth wave: init of every back end calls through a descriptor member only after it was stored on that path (R17e); R05m shared.',
+}
+for _d in (ADDED, ADDED3, ADDED4, ADDED5, ADDED6, ADDED7, ADDED8):
     for _k, _v in _d.items():
         CHECKS[_k]['text'] += ' ' + _v
 
